@@ -14,10 +14,18 @@ package chainmgr
 //verif:obligation fn=VerifC33LocateHeaders args=1,6,2;2,6,2;3,6,2;4,6,2;5,6,2;6,6,2 loops=400 validate=12
 //verif:obligation fn=VerifC33LocateHeaders args=3,12,3;5,12,3;7,12,3;8,12,2;9,12,2;10,12,2 tier=thorough loops=800 secs=3000
 //verif:obligation fn=VerifC33LocateBlocks args=2;5 loops=400 validate=12
+//verif:assume handler level (VerifC33Handle): Peer.SendHeaders / Peer.SendBlocks are cut (they need a live connection): the stub records what would be sent and reports success; the same cut is applied to the native replay (nativecut)
+//verif:override (*github.com/bytom/bytom/netsync/peers.Peer).SendHeaders -> verifC33SendHeaders
+//verif:nativecut ../peers/peer.go SendHeaders -> verifC33SendHeaders
+//verif:override (*github.com/bytom/bytom/netsync/peers.Peer).SendBlocks -> verifC33SendBlocks
+//verif:nativecut ../peers/peer.go SendBlocks -> verifC33SendBlocks
+//verif:obligation fn=VerifC33Handle args=3,0;3,1 loops=400 validate=12
 
 import (
 	"errors"
 
+	msgs "github.com/bytom/bytom/netsync/messages"
+	"github.com/bytom/bytom/netsync/peers"
 	"github.com/bytom/bytom/protocol/bc"
 	"github.com/bytom/bytom/protocol/bc/types"
 )
@@ -221,4 +229,47 @@ func VerifC33LocateBlocks(maxMain int) {
 		verifReach("VerifC33LocateBlocks:nonempty")
 	}
 	verifReach("VerifC33LocateBlocks:end")
+}
+
+// ---------------------------------------------------------------------------
+// handler level: handleGetHeadersMsg / handleGetBlocksMsg on an arbitrary
+// request (locator of 0..2 entries, stop hash, skip) never panic, and what they
+// hand to the peer is what locateHeaders / locateBlocks produced.
+
+var verifC33SentHeaders, verifC33SentBlocks int
+
+func verifC33SendHeaders(p *peers.Peer, headers []*types.BlockHeader) (bool, error) {
+	verifC33SentHeaders = len(headers)
+	return true, nil
+}
+
+func verifC33SendBlocks(p *peers.Peer, blocks []*types.Block) (bool, error) {
+	verifC33SentBlocks = len(blocks)
+	return true, nil
+}
+
+func VerifC33Handle(maxMain int, which int) {
+	c := verifC33Chain(maxMain)
+	m := &Manager{chain: c, blockKeeper: &blockKeeper{chain: c}}
+	nLoc := verifChoice("nLoc", 3)
+	var locator []*bc.Hash
+	for i := 0; i < nLoc; i++ {
+		h, _, _ := verifC33Hash(c, "loc")
+		hh := h
+		locator = append(locator, &hh)
+	}
+	stop, _, _ := verifC33Hash(c, "stop")
+	verifC33SentHeaders, verifC33SentBlocks = -1, -1
+	peer := &peers.Peer{}
+	if which == 0 {
+		skip := verifU64("skip")
+		m.handleGetHeadersMsg(peer, msgs.NewGetHeadersMessage(locator, &stop, skip))
+		verifObserveI64("sentHeaders", int64(verifC33SentHeaders))
+		verifAssert(verifC33SentHeaders != 0 && verifC33SentHeaders <= int(maxNumOfHeadersPerMsg), "handler-sends-a-nonempty-bounded-answer-or-nothing")
+	} else {
+		m.handleGetBlocksMsg(peer, msgs.NewGetBlocksMessage(locator, &stop))
+		verifObserveI64("sentBlocks", int64(verifC33SentBlocks))
+		verifAssert(verifC33SentBlocks != 0 && verifC33SentBlocks <= int(maxNumOfBlocksPerMsg), "handler-sends-a-nonempty-bounded-answer-or-nothing")
+	}
+	verifReach("VerifC33Handle:end")
 }
